@@ -68,8 +68,11 @@ impl SimpleQueryHandler for Processor {
                 }
             }
         }
+        // A query without output rows has no data chunk to take the columns from: it is answered
+        // with an empty row description (the connection task must not panic).
+        let headers = headers.unwrap_or_else(|| Arc::new(vec![]));
         Ok(vec![Response::Query(QueryResponse::new(
-            headers.expect("fixme: db should return schema even if no output data"),
+            headers,
             stream::iter(results.into_iter()),
         ))])
     }
